@@ -108,6 +108,8 @@ t0 = time.time()
 r = sh("cd %s && cmake -G Ninja -S . -B _build -DBUILD_TESTS=ON >/dev/null && cmake --build _build 2>&1 | tail -5" % WT)
 built = "FAILED" not in r.stdout and "error" not in r.stdout.lower()
 r2 = sh("cd %s && ctest --test-dir _build -j8 --timeout 900 2>&1 | tail -4" % WT)
+# the corpus tests are started through `sh -c "... 2&>1"`, which backgrounds them under dash: a seeded live-lock leaves them spinning forever
+sh("ps -eo pid,args | awk -v p='%s/_build/' 'index($2, p) == 1 {print $1}' | xargs -r kill -9" % WT)
 m = re.search(r"(\d+)% tests passed, (\d+) tests failed out of (\d+)", r2.stdout)
 tests_ok = bool(m and m.group(2) == "0" and m.group(3) == "3979")
 meta["builds"] = built; meta["tests"] = r2.stdout.strip().splitlines()[-3:] if r2.stdout.strip() else []
